@@ -33,7 +33,7 @@ type Cfg struct {
 	// again before the program runs; "late" attached by the program's call of setctx() (coroutines exist already);
 	// "midrm" attached before the program, removed by the program's call of rmctx()
 	CtxMode string `json:"ctxmode,omitempty"`
-	Pkg  bool `json:"pkg,omitempty"` // the third way of configuring: the package variables lua.CallStackSize / lua.RegistrySize /
+	Pkg     bool   `json:"pkg,omitempty"` // the third way of configuring: the package variables lua.CallStackSize / lua.RegistrySize /
 	// lua.RegistryGrowStep are set to CSS / Reg / Grow and the state is made by lua.NewState() without arguments
 }
 
@@ -445,6 +445,27 @@ func runJobs(jobs []Job, perJob time.Duration) []JobOut {
 	return outs
 }
 
+// runJobsPar is runJobs with the jobs spread over up to k child processes (results in job order).
+func runJobsPar(jobs []Job, perJob time.Duration, k int) []JobOut {
+	if k < 2 || len(jobs) < 2*k {
+		return runJobs(jobs, perJob)
+	}
+	per := (len(jobs) + k - 1) / k
+	var batches [][]Job
+	for i := 0; i < len(jobs); i += per {
+		j := i + per
+		if j > len(jobs) {
+			j = len(jobs)
+		}
+		batches = append(batches, jobs[i:j])
+	}
+	var outs []JobOut
+	for _, o := range runBatches(batches, perJob) {
+		outs = append(outs, o...)
+	}
+	return outs
+}
+
 // runBatches runs independent job batches in parallel child processes (results in batch order).
 func runBatches(batches [][]Job, perJob time.Duration) [][]JobOut {
 	outs := make([][]JobOut, len(batches))
@@ -571,9 +592,20 @@ func fillProg(tmpl string, r *lib.Rand) string {
 func zlist(t []int64) string { return lib.CoqZList(t) }
 
 func traceCase(w *lib.Writer, in TraceIn, ref JobOut, o JobOut, class string) {
+	rt, ot := ref.Trace, o.Trace
+	if strings.HasPrefix(class, "trace/cotree") {
+		// long traces (hundreds of entries, parsing them dominates the evaluation): the first 48 entries, the
+		// length and a 62-bit digest of the whole trace; the full traces are in cases.jsonl
+		rt, ot = digestTrace(rt), digestTrace(ot)
+	}
+	term := fmt.Sprintf("CTrace %s %s %s", in.Cfg.coq(), zlist(rt), zlist(ot))
+	if zlist(rt) == zlist(ot) {
+		// the common case: the list is written (and parsed) once
+		term = fmt.Sprintf("let t := %s in CTrace %s t t", zlist(rt), in.Cfg.coq())
+	}
 	id := w.Add(lib.Case{Input: in, Observed: map[string]any{"trace": o.Trace, "ref": ref.Trace, "err": o.ErrMsg}, Class: class,
 		Nontrivial: in.Cfg != refCfg && len(ref.Trace) > 3,
-		Coq:        fmt.Sprintf("CTrace %s %s %s", in.Cfg.coq(), zlist(ref.Trace), zlist(o.Trace))})
+		Coq:        term})
 	if o.Fail != "" {
 		w.GoFail(id, "below the limits: "+o.Fail)
 	} else if !o.Epi {
@@ -582,6 +614,23 @@ func traceCase(w *lib.Writer, in TraceIn, ref JobOut, o JobOut, class string) {
 	if ref.Fail != "" {
 		w.GoFail(id, "reference run: "+ref.Fail)
 	}
+}
+
+func digestTrace(t []int64) []int64 {
+	if len(t) <= 52 {
+		return t
+	}
+	h := fnv.New64a()
+	var b [8]byte
+	for _, v := range t {
+		for i := 0; i < 8; i++ {
+			b[i] = byte(uint64(v) >> (8 * i))
+		}
+		h.Write(b[:])
+	}
+	sum := h.Sum64()
+	out := append([]int64{}, t[:48]...)
+	return append(out, int64(len(t)), int64(sum>>33), int64(sum&0x7fffffff))
 }
 
 func genTraces(w *lib.Writer, r *lib.Rand, tier string) {
@@ -731,6 +780,8 @@ type limitProg struct {
 	wide bool
 	// handover: the operation at the limit is a coroutine handing values to its resumer (wave5.go); own configurations
 	handover bool
+	// thoroughOnly: not part of the quick tier (replayable in both)
+	thoroughOnly bool
 }
 
 var limitProgs = []limitProg{
@@ -952,7 +1003,7 @@ func measure(p *limitProg, ns []int) (need map[int]int, fail map[int]string) {
 	for _, n := range ns {
 		jobs = append(jobs, limitJob(p, measureCfg, n))
 	}
-	a := runJobs(jobs, 20*time.Second)
+	a := runJobsPar(jobs, 20*time.Second, 4)
 	if p.kind == "call" {
 		for i, n := range ns {
 			need[n] = a[i].MaxSp
@@ -988,7 +1039,7 @@ func measure(p *limitProg, ns []int) (need map[int]int, fail map[int]string) {
 		if len(idx) == 0 {
 			break
 		}
-		b := runJobs(jobs, 20*time.Second)
+		b := runJobsPar(jobs, 20*time.Second, 4)
 		for k, i := range idx {
 			mid := jobs[k].Cfg.Reg
 			if b[k].Outcome == 0 && b[k].Fail == "" {
@@ -1079,15 +1130,57 @@ func limitCfgs(kind, tier string) []Cfg {
 	return cs
 }
 
+// limitResult is one limit case ready to be added (the programs are run in parallel, the cases added in order).
+type limitResult struct {
+	in    LimitIn
+	need  int
+	mfail string
+	out   JobOut
+}
+
 func genLimits(w *lib.Writer, r *lib.Rand, tier string) {
+	results := make([][]limitResult, len(limitProgs))
+	rs := make([]*lib.Rand, len(limitProgs))
 	for pi := range limitProgs {
-		p := &limitProgs[pi]
+		rs[pi] = r.Fork()
+	}
+	sem := make(chan struct{}, 6)
+	done := make(chan int)
+	for pi := range limitProgs {
+		go func(pi int) {
+			sem <- struct{}{}
+			results[pi] = runLimitProg(&limitProgs[pi], rs[pi], tier)
+			<-sem
+			done <- pi
+		}(pi)
+	}
+	for range limitProgs {
+		<-done
+	}
+	for pi := range limitProgs {
+		for _, x := range results[pi] {
+			limitCase(w, x.in, &limitProgs[pi], x.need, x.mfail, x.out)
+		}
+	}
+}
+
+func runLimitProg(p *limitProg, r *lib.Rand, tier string) (res []limitResult) {
+	tStart := time.Now()
+	defer func() {
+		if os.Getenv("C12_DEBUG") != "" {
+			fmt.Fprintln(os.Stderr, "limit program", p.name, "total", time.Since(tStart))
+		}
+	}()
+	{
 		cfgs := limitCfgs(p.kind, tier)
 		if p.handover {
 			cfgs = handoverCfgs(tier)
 		}
 		if only := os.Getenv("C12_PROG"); only != "" && !strings.HasPrefix(p.name, only) { // development aid
-			continue
+			return nil
+		}
+		if p.thoroughOnly && tier != "thorough" {
+			return nil
 		}
 		if p.name == "rec-meta" {
 			// every level nests a call from Go into the interpreter: above ~190 levels the "C stack overflow"
@@ -1145,7 +1238,7 @@ func genLimits(w *lib.Writer, r *lib.Rand, tier string) {
 			jobs[i] = limitJob(p, in.Cfg, in.N)
 		}
 		t0 := time.Now()
-		outs := runJobs(jobs, 20*time.Second)
+		outs := runJobsPar(jobs, 20*time.Second, 4)
 		if os.Getenv("C12_DEBUG") != "" {
 			fmt.Fprintln(os.Stderr, "limit program", p.name, "jobs", len(jobs), "measured", len(directNs), "k0", k0, "slope", slope, "linear", linear, time.Since(t0))
 		}
@@ -1154,9 +1247,10 @@ func genLimits(w *lib.Writer, r *lib.Rand, tier string) {
 			if !ok {
 				nd = k0 + slope*in.N
 			}
-			limitCase(w, in, p, nd, mfail[in.N], outs[i])
+			res = append(res, limitResult{in: in, need: nd, mfail: mfail[in.N], out: outs[i]})
 		}
 	}
+	return res
 }
 
 /* ---------- recursion through Go functions: bounded by a limit that no Option moves ---------- */
@@ -1235,30 +1329,46 @@ func findCcall(name string) string {
 }
 
 func genCcalls(w *lib.Writer) {
-	for _, p := range ccallProgs {
-		// the deepest N that completes under the reference configuration
-		lo, hi := 1, 1200
-		for hi-lo > 1 {
-			mid := (lo + hi) / 2
-			o := runJobs([]Job{ccallJob(p.src, ccallRef, mid)}, 20*time.Second)
-			if o[0].Outcome == 0 && o[0].Fail == "" {
-				lo = mid
-			} else {
-				hi = mid
+	type res struct {
+		ns   []int
+		outs []JobOut
+	}
+	cfgs := ccallCfgs()
+	results := make([]res, len(ccallProgs))
+	done := make(chan int)
+	for pi := range ccallProgs {
+		go func(pi int) {
+			p := ccallProgs[pi]
+			// the deepest N that completes under the reference configuration
+			lo, hi := 1, 1200
+			for hi-lo > 1 {
+				mid := (lo + hi) / 2
+				o := runJobs([]Job{ccallJob(p.src, ccallRef, mid)}, 20*time.Second)
+				if o[0].Outcome == 0 && o[0].Fail == "" {
+					lo = mid
+				} else {
+					hi = mid
+				}
 			}
-		}
-		ns := []int{lo / 2, lo - 1, lo, lo + 1, lo + 2, lo + 60}
-		var jobs []Job
-		for _, n := range ns {
-			jobs = append(jobs, ccallJob(p.src, ccallRef, n))
-		}
-		cfgs := ccallCfgs()
-		for _, c := range cfgs {
+			ns := []int{lo / 2, lo - 1, lo, lo + 1, lo + 2, lo + 60}
+			var jobs []Job
 			for _, n := range ns {
-				jobs = append(jobs, ccallJob(p.src, c, n))
+				jobs = append(jobs, ccallJob(p.src, ccallRef, n))
 			}
-		}
-		outs := runJobs(jobs, 20*time.Second)
+			for _, c := range cfgs {
+				for _, n := range ns {
+					jobs = append(jobs, ccallJob(p.src, c, n))
+				}
+			}
+			results[pi] = res{ns: ns, outs: runJobs(jobs, 20*time.Second)}
+			done <- pi
+		}(pi)
+	}
+	for range ccallProgs {
+		<-done
+	}
+	for pi, p := range ccallProgs {
+		ns, outs := results[pi].ns, results[pi].outs
 		for k, c := range cfgs {
 			ccallCase(w, CcallIn{Kind: "ccall", Prog: p.name, Cfg: c, Ns: ns}, outs[:len(ns)], outs[(k+1)*len(ns):(k+2)*len(ns)])
 		}
